@@ -19,6 +19,13 @@ decoration was applied to (`f2 = pedantic(f); …; f3 = pedantic(f)`).  The code
 marker attribute on the function), so in the model the outcome for a function that has been decorated before is the
 outcome for a fresh one; the correspondence run checks exactly that against the library.  Classes are changed in place by
 `for_all_methods`, so decorating the same class object again is outside the model (`bad`).
+
+Sub classes (`subclass`) and members reached through them (`callm`): `for_all_methods.decorate` replaces every member of the
+class *while it runs* (`membersEager` in the generated table — the per-member decorator is applied on the spot, nothing is
+kept to be applied on a later attribute access), so whatever was decided at the decoration of the base class sits in the
+base class' `__dict__`; a sub class created at any later time — before or after a toggle, used for the first time before or
+after a toggle — finds exactly those objects through the MRO.  In the model a sub class handle therefore carries the mode
+of its base, and a member call through the sub class or one of its instances is answered from that mode alone.
 -/
 namespace PedVerif.Switch
 open PedVerif.Gen.Switch
@@ -58,13 +65,34 @@ def Deco.innerArg : Deco → String
 structure Target where
   isClass : Bool
   hasDoc : Bool
+  full : Bool := false       -- a class that, besides the method `m`, has a class method, a static method and a property (getter + setter)
 deriving DecidableEq, Repr
+
+/-- a member of a class -/
+inductive Member where
+  | method | classMethod | staticMethod | propGet | propSet
+deriving DecidableEq, Repr
+
+/-- where the member is looked up: on the class object (`S.cm(..)`, `S.m(inst, ..)`, `S.p.fget(inst)`) or on an instance -/
+inductive Via where
+  | cls | inst
+deriving DecidableEq, Repr
+
+def hasMember (t : Target) (m : Member) : Bool := t.isClass && (t.full || m == .method)
 
 inductive CallKind where
   | good          -- keyword call with a conforming value
   | positional    -- positional call
   | wrongType     -- keyword call with a value of the wrong type
 deriving DecidableEq, Repr
+
+/-- reading a property / assigning to it has one form only: `positional` is the same access as `good`
+    (`wrongType`: the getter produces / the setter receives a value of the wrong type) -/
+def Member.kind (m : Member) (k : CallKind) : CallKind :=
+  match m, k with
+  | .propGet, .positional => .good
+  | .propSet, .positional => .good
+  | _, k => k
 
 /-- what an active wrapper does on a call -/
 inductive Effect where
@@ -114,29 +142,35 @@ def applyFnRow (r : Row) (enF : Option Bool) (enD hasDoc : Bool) : DecoOut :=
     | none => .switchError
     | some e => if guardFires r e then early r else wrapFn r hasDoc wrapped
 
-/-- `decorator(attr_value)` inside `for_all_methods.decorate`, by the decorator's name -/
-def applyInner (n : String) (en hasDoc : Bool) : DecoOut :=
+/-- a member decorator that is not applied while `decorate` runs but kept and applied on a later attribute access reads the
+    switch then, not now (does not occur in the code as it is; coarse: "asks the switch when used") -/
+def deferred : DecoOut → DecoOut
+  | .ok a b (.frozen e) => .ok a b (.dynamic e)
+  | o => o
+
+/-- `decorator(attr_value)` inside `for_all_methods.decorate`, by the decorator's name; `eager` = applied on the spot -/
+def applyInner (eager : Bool) (n : String) (en hasDoc : Bool) : DecoOut :=
   if n == "trace" || n == "timer" then .ok false true (.frozen .prints)
   else if n == "<mark>" then .ok false true (.frozen .marks)
   else match lookup n with
-    | some r => applyFnRow r (some en) en hasDoc
+    | some r => if eager then applyFnRow r (some en) en hasDoc else deferred (applyFnRow r (some en) en hasDoc)
     | none => .noRow
 
 /-- the rest of `for_all_methods.decorate`: every member replaced, a method added, the class itself returned -/
-def classBody (n : String) (en hasDoc : Bool) : DecoOut :=
-  match applyInner n en hasDoc with
+def classBody (eager : Bool) (n : String) (en hasDoc : Bool) : DecoOut :=
+  match applyInner eager n en hasDoc with
   | .ok _ _ m => .ok true false m
   | o => o
 
 def applyClassRow (r : Row) (innerArg : String) (enF : Option Bool) (enD hasDoc : Bool) : DecoOut :=
   let n := if r.inner == "<arg>" then innerArg else r.inner
   match r.readAt with
-  | .never | .wrapper => classBody n enD hasDoc
-  | .decoration => if guardFires r enD then early r else classBody n enD hasDoc
+  | .never | .wrapper => classBody r.membersEager n enD hasDoc
+  | .decoration => if guardFires r enD then early r else classBody r.membersEager n enD hasDoc
   | .factory =>
     match enF with
     | none => .switchError
-    | some e => if guardFires r e then early r else classBody n enD hasDoc
+    | some e => if guardFires r e then early r else classBody r.membersEager n enD hasDoc
 
 def decoOut (d : Deco) (t : Target) (enF : Option Bool) (enD : Bool) : DecoOut :=
   if d.onClass != t.isClass then .noRow
@@ -154,6 +188,10 @@ inductive Op where
   | redecorate (d : Deco) (h : Nat)   -- apply the decorator to the same function object the h-th decoration was applied to
   | reapply (k : Nat) (h : Nat)       -- apply the k-th factory to that same function object
   | call (h : Nat) (k : CallKind)     -- call the h-th decoration result (for a class: a method of a new instance)
+  | subclass (h : Nat)                -- `class S(<the class behind handle h>): pass` — S becomes the next handle; nothing is decorated
+  | callm (h : Nat) (m : Member) (v : Via) (k : CallKind)
+                                      -- reach member m of the class behind handle h (a decorated class or a sub class of one)
+                                      -- through the class object / through a new instance, and call it
 deriving DecidableEq, Repr
 
 structure Factory where
@@ -173,8 +211,10 @@ inductive Obs where
   | decorated (same dictSame : Bool)
   | decoRaised
   | called (rejected printed marked : Bool)
-  | bad                               -- no such handle / factory, dead handle, kind mismatch
+  | bad                               -- no such handle / factory / member, dead handle, kind mismatch
   | switchError
+  | derived                           -- a sub class was created
+  | callError                         -- the call raised something that is not a PedanticException (a TypeError)
 deriving DecidableEq, Repr
 
 def init (e : Option String) : St := ⟨e, [], [], []⟩
@@ -194,6 +234,29 @@ def callObs (m : Mode) (enNow : Option Bool) (k : CallKind) : Obs :=
     match enNow with
     | none => .switchError
     | some true => effObs e k
+    | some false => .called false false false
+
+/-- `for_all_methods` stores `decorator(getattr(cls, name))` back as a plain function: a class method / static method whose
+    wrapper does not strip the extra argument (trace, timer, a foreign decorator) gets the instance as an extra first argument
+    when it is reached through an instance (recorded finding of C18, not a matter of the switch) -/
+def rebound (m : Member) (v : Via) : Bool := (m == .classMethod || m == .staticMethod) && v == .inst
+
+/-- a member of a class decorated with effect `e`, reached through the class or an instance -/
+def effObsM (e : Effect) (m : Member) (v : Via) (k : CallKind) : Obs :=
+  match e with
+  | .checks => .called (m.kind k != .good) false false
+  | .prints => if rebound m v then .callError else .called false true false
+  | .marks => if rebound m v then .callError else .called false false true
+
+def callObsM (md : Mode) (enNow : Option Bool) (m : Member) (v : Via) (k : CallKind) : Obs :=
+  match md with
+  | .dead => .bad
+  | .plain => .called false false false
+  | .frozen e => effObsM e m v k
+  | .dynamic e =>
+    match enNow with
+    | none => .switchError
+    | some true => effObsM e m v k
     | some false => .called false false false
 
 def push (s : St) (m : Mode) : St := { s with handles := s.handles ++ [m] }
@@ -250,6 +313,17 @@ def step (s : St) : Op → St × Obs
     match s.handles[h]? with
     | none => (s, .bad)
     | some m => (s, callObs m (isEnabledE s.env) k)
+  | .subclass h =>
+    -- the sub class owns no member: every lookup ends in the base class' `__dict__`, where `decorate` left what it decided
+    match s.handles[h]?, s.targets[h]? with
+    | some md, some (some t) =>
+      if t.isClass then record (some t) (if md != .dead then (push s md, .derived) else (push s .dead, .bad))   -- no class came out of the decoration
+      else record none (push s .dead, .bad)                                                                    -- a function has no sub class
+    | _, _ => record none (push s .dead, .bad)
+  | .callm h m v k =>
+    match s.handles[h]?, s.targets[h]? with
+    | some md, some (some t) => if hasMember t m then (s, callObsM md (isEnabledE s.env) m v k) else (s, .bad)
+    | _, _ => (s, .bad)
 
 def run (s : St) : List Op → List Obs
   | [] => []
